@@ -20,6 +20,10 @@ type forwardInfo struct {
 }
 
 var forwardMemo = map[*ssa.Function]*forwardInfo{}
+
+// bodyMovedOut: recorded functions that have become forwarding wrappers around a function new to the tree (their
+// old body lives there now): the new function takes over the recorded identity and the wrapper is looked through.
+var bodyMovedOut = map[*ssa.Function]bool{}
 var recordedFuncNames = map[string]bool{}
 
 func forwardOf(g *ssa.Function) *forwardInfo {
@@ -30,7 +34,7 @@ func forwardOf(g *ssa.Function) *forwardInfo {
 		return fi
 	}
 	forwardMemo[g] = nil
-	if recordedFuncNames[recordedString(g.String())] || g.Parent() != nil || g.Synthetic != "" {
+	if (recordedFuncNames[recordedString(g.String())] && !bodyMovedOut[g]) || g.Parent() != nil || g.Synthetic != "" {
 		return nil
 	}
 	var call *ssa.Call
@@ -100,9 +104,11 @@ func forwardOf(g *ssa.Function) *forwardInfo {
 			}
 		}
 		if idx < 0 {
-			if _, isC := av.(*ssa.Const); !isC {
+			_, isC := av.(*ssa.Const)
+			isF := plainFuncValue(av) != nil
+			if !isC && !isF {
 				if cl, isCall := av.(*ssa.Call); !isCall || len(cl.Common().Args) != 0 || cl.Common().IsInvoke() {
-					return nil // neither a parameter, a constant nor a nullary call (context.Background())
+					return nil // neither a parameter, a constant, a function nor a nullary call (context.Background())
 				}
 			}
 		}
@@ -123,5 +129,34 @@ func computeRecordedNames() {
 	}
 	for _, pf := range tab {
 		recordedFuncNames[pf.Name] = true
+	}
+}
+
+// adoptMovedBodies: a recorded function that is now nothing but a forward to a function new to the tree has had its
+// body moved there (typically with an extra parameter for a dependency): the new function is treated as the
+// recorded one, the remaining wrapper as a forwarding wrapper.
+func adoptMovedBodies(p *Prog) {
+	bodyMovedOut = map[*ssa.Function]bool{}
+	for _, f := range namedFuncs(p) {
+		name := f.String()
+		if !recordedFuncNames[name] || renamed[name] != "" {
+			continue
+		}
+		bodyMovedOut[f] = true
+		delete(forwardMemo, f)
+		fi := forwardOf(f)
+		if fi == nil || fi.inner.Pkg != f.Pkg || recordedFuncNames[recordedString(fi.inner.String())] || fi.inner.Blocks == nil {
+			delete(bodyMovedOut, f)
+			delete(forwardMemo, f)
+			continue
+		}
+		if _, taken := renamed[fi.inner.String()]; taken {
+			delete(bodyMovedOut, f)
+			delete(forwardMemo, f)
+			continue
+		}
+		renamed[fi.inner.String()] = name
+		restored[name] = fi.inner
+		RenameNotes = append(RenameNotes, "body of "+name+" moved to "+fi.inner.String()+" (the recorded name now stands for it)")
 	}
 }
